@@ -25,11 +25,37 @@ FAMILIES = {
     'C16': ['DwRle', 'DwLle'],
     'C17': ['DwIdx', 'DwSect', 'DwSectV2'],
 }
+# encoding-defining constants that are not DW_* newtype constants: (value, properties, what the standard says)
+EXTRA = {
+    'constants::DW_EH_PE_FORMAT_MASK': (0x0f, ('C05', 'C14'), 'LSB: low nibble of a pointer encoding is the value format'),
+    'constants::DW_EH_PE_APPLICATION_MASK': (0x70, ('C05', 'C14'), 'LSB: bits 4-6 of a pointer encoding are the application'),
+    'leb128::CONTINUATION_BIT': (0x80, ('C09',), 'DWARF 5 section 7.6: the high bit of each LEB128 byte says another byte follows'),
+    'leb128::SIGN_BIT': (0x40, ('C09',), 'DWARF 5 section 7.6: bit 6 of the last SLEB128 byte is the sign'),
+    'read::cfi::CFI_INSTRUCTION_HIGH_BITS_MASK': (0xc0, ('C06', 'C05'), 'DWARF 5 section 7.24: the high 2 bits of a CFA opcode byte are the primary opcode'),
+    'read::cfi::CFI_INSTRUCTION_LOW_BITS_MASK': (0x3f, ('C06', 'C05'), 'DWARF 5 section 7.24: the low 6 bits are the operand / extended opcode'),
+}
+
 FLOORS = {'C02': 127, 'C03': 445, 'C04': 26, 'C05': 16, 'C06': 33, 'C07': 199, 'C08': 18, 'C11': 59, 'C12': 19, 'C13': 26, 'C14': 49,
           'C15': 179, 'C16': 18, 'C17': 22}
 
 
+def run_K0_extra(rep, g, prop):
+    mine = {p_: v for p_, v in EXTRA.items() if prop in v[1]}
+    if not mine:
+        return
+    rep.rule('K0', 'encoding-defining masks and bits have the values the standard defines')
+    for path, (val, _props, why) in sorted(mine.items()):
+        c = g.consts.get(path)
+        if c is None:
+            rep.cannot_decide('K0: constant %s no longer exists' % path)
+            continue
+        rep.check('K0', path.split('::')[-1], c['v'] == val,
+                  '%s = %s, the standard value is %#x (%s)' % (path, c['v'], val, why), 'src/%s.rs' % path.rsplit('::', 1)[0].replace('::', '/'),
+                  why='value equals the standard value: ' + why)
+
+
 def run_K0(rep, g, prop):
+    run_K0_extra(rep, g, prop)
     fams = FAMILIES.get(prop)
     if not fams:
         return
